@@ -42,7 +42,11 @@ impl Default for Cfg {
 }
 
 pub const NAMES: [&str; 14] = ["r", "ra", "rab", "rb", "x.y", "dep-1", "D", "r_2", "a", "z9", "R", "Ra", "d", "A"];
-pub const OPNAMES: [&str; 9] = ["$a", "$ab", "$b", "$c", "$a_1", "$az", "$azure_1", "$a0", "$aZ"];
+pub const OPNAMES: [&str; 15] = ["$a", "$ab", "$b", "$c", "$a_1", "$az", "$azure_1", "$a0", "$aZ", "$a-x", "$a-y", "$a\u{e9}", "$a{", "$a.b", "$a~"];
+/// an operand name the condition grammar can spell (the others are reachable through `them` and prefixes only)
+pub fn spellable(n: &str) -> bool {
+    n.len() > 1 && n[1..].chars().all(|c| c.is_ascii_alphanumeric() || c == '_')
+}
 pub const FIELDS: [&str; 4] = ["f0", "f1", "f2", "f3"];
 
 /// a path of 40 segments and its prefix of 31: a lookup that silently drops segments lands on the other one
@@ -92,7 +96,7 @@ fn field_test(rng: &mut Rng, err_ops: bool) -> Operand {
         6 => (0, Lit::sq("0")),
         7 => (rng.below(2), if rng.chance(1, 2) { Lit::None } else { Lit::Some }),
         8 => (2 + rng.below(4), Lit::sq(*rng.pick(&["0", "1", "0.5", "-1", "0x1"]))),
-        9 => (6, Lit::sq(*rng.pick(&["^1$", "1|0", "(?i)A", "."]))),
+        9 => (6, Lit::sq(*rng.pick(&["^1$", "1|0", "(?i)A", ".", "^0$", "1.0", "^$"]))),
         10 => (7, Lit::sq(*rng.pick(&["1", "0x3", "0"]))),
         11 => (0, Lit::Bool(rng.chance(1, 2))),
         12 => (0, Lit::sq("abc")),
@@ -185,7 +189,7 @@ pub fn random_rule(rng: &mut Rng, cfg: &Cfg, name: &str, earlier: &[String]) -> 
         };
         ops.push((on.to_string(), o));
     }
-    let vars: Vec<String> = ops.iter().map(|o| o.0.clone()).collect();
+    let vars: Vec<String> = ops.iter().map(|o| o.0.clone()).filter(|n| spellable(n)).collect();
     let cond = if rng.chance(1, 8) {
         None
     } else {
@@ -273,7 +277,7 @@ pub fn random_value(rng: &mut Rng) -> FieldValue {
         11 => FieldValue::Bool(rng.chance(1, 2)),
         12 => FieldValue::None,
         13 => FieldValue::Some,
-        14 => FieldValue::String(rng.pick(&["abc", "A", "", "1.0", "0x1"]).to_string()),
+        14 => FieldValue::String(rng.pick(&["abc", "A", "", "1.0", "0x1", "1\n0", "0\n1\n0", "\n"]).to_string()),
         _ => FieldValue::Number(Number::Uint(1)),
     }
 }
